@@ -146,6 +146,8 @@ fn eval_block(prop: &str, jw: &mut JitWorld, ctx: &mut Ctx, code: &[u8], at: u16
     // every other register vector enters the block the way the block after an interrupt
     // dispatch is entered: with five machine cycles already in the cycle register
     jw.entry_cycles = if vi % 2 == 1 { 5 } else { 0 };
+    // the third and fourth of every four vectors meet an OAM DMA that has just been armed
+    jw.dma_armed = vi % 4 >= 2;
     let oi = jw.run_interp_block(&c);
     jw.restore(&oi);
     let t0 = jw.total_translations;
@@ -163,7 +165,7 @@ fn eval_block(prop: &str, jw: &mut JitWorld, ctx: &mut Ctx, code: &[u8], at: u16
       let key = if is_cycles { format!("C02 {}={} jit={} interp={}", kind, name, oj.cycles, oi.cycles) } else { format!("C01 {}={} field={}", kind, name, f) };
       ctx.violation(&key, || {
         J::obj()
-          .set("case", J::obj().set("block_bytes", J::s(hex(&code[..code.len().min(64)]))).set("block_len", J::u(code.len() as u64)).set("at", J::s(format!("{:04X}", at))).set("regs", J::s(format!("{:?}", c))).set("cycles_on_entry", J::u(if vi % 2 == 1 { 5 } else { 0 })))
+          .set("case", J::obj().set("block_bytes", J::s(hex(&code[..code.len().min(64)]))).set("block_len", J::u(code.len() as u64)).set("at", J::s(format!("{:04X}", at))).set("regs", J::s(format!("{:?}", c))).set("cycles_on_entry", J::u(if vi % 2 == 1 { 5 } else { 0 })).set("oam_dma_armed", J::Bool(vi % 4 >= 2)))
           .set("interpreter", obs_json(&oi))
           .set("translated", obs_json(&oj))
           .set("differing_fields", J::Arr(d.iter().map(|x| J::s(*x)).collect()))
@@ -171,6 +173,7 @@ fn eval_block(prop: &str, jw: &mut JitWorld, ctx: &mut Ctx, code: &[u8], at: u16
     }
   }
   jw.entry_cycles = 0;
+  jw.dma_armed = false;
 }
 
 pub fn run(prop: &'static str, tier: &str) -> i32 {
